@@ -15,7 +15,7 @@ import (
 
 func init() {
 	Register(&Scenario{Prop: "C10", Name: "rejected-do-not-block", Run: scenC10, SoftParks: true, Weight: 1,
-		Rule: "honest writer W, receiver R (ReplicationConcurrency in {1,2,32}) and an adversary; W writes 1-3 entries that R replicates, then 1-4 more while R is cut off (their announcements are lost); after the heal, before any honest exchange, the adversary announces to R 1-3 messages whose head lists mix copies of W's valid current heads with 1-3 rejected heads drawn from {non-writer author, writer's identity block with a foreign signature, the same naming a predecessor nobody holds, entry of another database written by W, valid entry with a wrong claimed hash} at every position (permutation drawn per run), block fetches complete in a drawn order; then W's valid heads are announced again by an honest message (topic announcement, head exchange after the pollers notice the heal, or manual Sync, drawn per run); oracle: at rest R holds every entry W wrote; non-trivial = at least one mixed message (valid and rejected heads together) was processed and R lacked >=1 valid entry before it"})
+		Rule: "honest writer W, receiver R (ReplicationConcurrency in {1,2,32}) and an adversary; W writes 1-3 entries that R replicates, then 1-4 more while R is cut off (their announcements are lost); after the heal, before any honest exchange, the adversary announces to R 1-3 messages whose head lists mix copies of W's valid current heads with 1-3 rejected heads drawn from {non-writer author, writer's identity block with a foreign signature, the same naming a predecessor nobody holds, (a third of the runs: the adversary is a listed writer) a valid entry of the adversary on top of such a forged entry, entry of another database written by W, valid entry with a wrong claimed hash} at every position (permutation drawn per run), block fetches complete in a drawn order; then W's valid heads are announced again by an honest message (topic announcement, head exchange after the pollers notice the heal, or manual Sync, drawn per run); oracle: at rest R holds every entry W wrote; non-trivial = at least one mixed message (valid and rejected heads together) was processed and R lacked >=1 valid entry before it"})
 }
 
 func scenC10(k *K) {
@@ -27,7 +27,14 @@ func scenC10(k *K) {
 	if rWrites {
 		writers = []int{0, 1}
 	}
-	c := k.NewCluster(ClusterCfg{N: 2, Type: typ, Writers: writers, PeerOpts: []PeerOpt{WithKnobs(Knobs{Concurrency: conc})}})
+	// in a third of the runs the adversary is on the write list as well (a writer that
+	// misbehaves): its own entries are valid, what they name as predecessor need not be
+	collude := k.C.Chance(1, 3)
+	var extra []string
+	if collude {
+		extra = []string{adv.Own.ID}
+	}
+	c := k.NewCluster(ClusterCfg{N: 2, Type: typ, Writers: writers, ExtraIDs: extra, PeerOpts: []PeerOpt{WithKnobs(Knobs{Concurrency: conc})}})
 	W, R := c.Stores[0], c.Stores[1]
 	// a second database of W's, to harvest a "foreign database" entry signed by an authorised writer
 	var foreign *entry.Entry
@@ -123,6 +130,23 @@ func scenC10(k *K) {
 				return nil
 			}
 			return e
+		case "forged-ancestor":
+			// a valid entry of the misbehaving writer on top of a forged one (the writer's
+			// identity block, a payload it never signed) and the current valid heads: the
+			// forged entry reaches the join as a log of its own, next to the valid ones
+			if !collude {
+				return nil
+			}
+			ident, priv := adv.ForgedIdentity("copied-block", W.Identity())
+			f, err := adv.Craft("copied-block", ident, priv, c.Addr, mkPayload(fmt.Sprintf("bad-%d", n)), next, maxT+1)
+			if err != nil {
+				return nil
+			}
+			child, err := adv.Craft("own", adv.Own, nil, c.Addr, mkPayload(fmt.Sprintf("child-%d", n)), append([]cid.Cid{f.Hash}, next...), maxT+2)
+			if err != nil {
+				return nil
+			}
+			return child
 		case "foreign-db":
 			if foreign == nil {
 				return nil
@@ -147,6 +171,9 @@ func scenC10(k *K) {
 		return nil
 	}
 	kinds := []string{"nonwriter", "forged-block", "foreign-db", "wrong-hash", "forged-dangling"}
+	if collude {
+		kinds = append(kinds, "forged-ancestor", "forged-ancestor")
+	}
 	mixed := 0
 	nmsg := k.C.Range(1, 3)
 	for m := 0; m < nmsg; m++ {
